@@ -1788,7 +1788,8 @@ def _put_one_MatchAs_pattern(
     static: onestatic,
     options: Mapping[str, Any],
 ) -> fst.FST:
-    """Enclose unenclosed MatchSequences being put here, if any."""
+    """Enclose unenclosed MatchSequences being put here, if any. If adding a pattern to a name-only capture then `self`
+    goes from atom to as-pattern so may need to parenthesize `self` in its parent."""
 
     child, idx = _validate_put(self, code, idx, field, child, can_del=True)
 
@@ -1802,7 +1803,18 @@ def _put_one_MatchAs_pattern(
         if code.is_delimited_matchseq() == '':
             code._delimit_node(delims='[]')
 
-    return _put_one_exprlike_optional(self, code, idx, field, child, static, options, 2)
+    ret = _put_one_exprlike_optional(self, code, idx, field, child, static, options, 2)
+
+    if (code is not None
+        and child is None  # precedence of self only changes when going from just name to 'pattern as name'
+        and fst.FST.get_option('pars', options)
+        and (parent := self.parent)
+        and precedence_require_parens(self.a, parent.a, *self.pfield)
+        and not self.pars().n
+    ):
+        self._parenthesize_grouping()
+
+    return ret
 
 
 def _put_one_pattern(
